@@ -1052,6 +1052,8 @@ pub fn builtin_catalog() -> Catalog {
         Priority, Vec<Priority>, (Priority, u8),
         [u16; 64], [i8; 127], [(); 65], [String; 70], [bool; 100], Vec<[u16; 64]>,
         dup_a::Item, dup_b::Item, (dup_a::Item, dup_b::Item), dup_a::Kind, dup_b::Kind, Vec<dup_b::Kind>,
+        std::marker::PhantomData<u32>, (u8, std::marker::PhantomData<String>, u8), Vec<std::marker::PhantomData<u8>>,
+        Result<Result<u8, ()>, Option<char>>, LinkedList<(char, Duration)>, (Uuid, BigInt, BigDecimal), Vec<Dt<FixedOffset>>, Option<Dt<Tz>>, BTreeMap<NaiveDate, NaiveTime>,
         Big200, Vec<Big200>, (Big200, u8), Zipped, (Zipped, String), Vec<Zipped>, Archive, Vec<Archive>, (Archive, u8),
         Fragile, (String, Fragile), Vec<Fragile>, Brittle, Vec<Brittle>, (Brittle, Point),
     ];
